@@ -42,6 +42,7 @@ class Check:
         self.trusted = ["clang 14 front end and clang::CFG construction", "ovm-extract expression normalisation (/verif/tools/ovm-extract.cc)"]
         self.canaries = []
         self.replay_key = None
+        self.unjudged = []
 
     # ---- obligations
     def rule(self, rid, text):
@@ -60,6 +61,12 @@ class Check:
         self.floors.append({"name": name, "value": value, "floor": minimum})
         if value < minimum:
             raise AnalysisBroken("%s: instance count %s=%d fell below the confirmed floor %d (anchor moved or idiom no longer recognised)" % (self.pid, name, value, minimum))
+
+    def cannot_judge(self, msg):
+        """a construct is written in a form the rule does not know: exit 2 at the end - unless another obligation of this
+        run is violated, which is reported first (a violation found elsewhere stays a violation)"""
+        self.unjudged.append(msg)
+        self.note("not judged: " + msg)
 
     def canary(self, name, fired):
         self.canaries.append({"canary": name, "fired": bool(fired)})
@@ -80,6 +87,8 @@ class Check:
         known = load_known(self.pid)
         known_keys = {e["key"]: e for e in known if e.get("status") == "known"}
         viol = [o for o in self.oblig if o["status"] == "violated"]
+        if self.unjudged and not [v for v in viol if v["key"] not in known_keys]:
+            raise AnalysisBroken(self.unjudged[0])
         new, listed = [], []
         for v in viol:
             if v["key"] in known_keys:
